@@ -1,4 +1,4 @@
-import ParryModel.C18.DriverFill3
+import ParryModel.C18.DriverVox3
 import ParryModel.Proto
 import ParryModel.C18.ModelVox
 import Std.Data.HashSet
@@ -285,6 +285,6 @@ def handlerVox (fn : String) : Option Handler :=
             | some so => setOracle x so
             | none => "fail unparsable-output")
         | none => "skip bad-args" }
-  | _ => handlerFill3 fn
+  | _ => handlerVox3 fn
 
 end C18
